@@ -1749,6 +1749,25 @@ package resolve
 //@   modifies *, count(*)
 //@   safety lockbalance-off
 //@   safety no-nilmap
+// the start goroutine of a new trigger ends in exactly one of two ways: the trigger is marked initialized, or - when the
+// startup hook or Source.Start failed - the WHOLE trigger is torn down (subscribers that joined during start-up are
+// completed with it; removing only the subscription that created the trigger would strand them on a dead trigger)
+//@ func Resolver.addSubscription$2
+//@   assumes {started.by.addSubscription} r != nil && add != nil && trig != nil
+//@   ghost var g_torn bool = false
+//@   ghost var g_marked bool = false
+//@   at call subscriptionState.writeError: assume {the.start.goroutine.holds.no.lock} !held(arg0.writeMu)
+//@   at call Resolver.doneTriggerFromUpdater: assume {the.start.goroutine.holds.no.lock} r != nil && !held(r.mu) && noneheld(trigger.mu) && noneheld(subscriptionState.writeMu)
+//@   at call Resolver.markTriggerInitialized: assume {the.start.goroutine.holds.no.lock} r != nil && !held(r.mu)
+//@   at call Resolver.doneTriggerFromUpdater: assert {the.trigger.torn.down.is.the.one.that.failed} arg1 == triggerID
+//@   at call Resolver.doneTriggerFromUpdater: ghost g_torn = true
+//@   at call Resolver.markTriggerInitialized: assert {the.trigger.marked.is.the.one.that.started} arg1 == triggerID
+//@   at call Resolver.markTriggerInitialized: ghost g_marked = true
+//@   ensures {start.up.ends.initialized.or.with.the.whole.trigger.torn.down} g_torn != g_marked
+//@   modifies *, count(*), allof(subscriptionState.closePerm)
+//@   safety none
+//@   loop 0:
+//@     invariant !g_torn && !g_marked
 
 // C07/C08: errors collected so far are never dropped, whatever the completion order of the fetches: the error
 // array of a loader is created once (when the first error arrives) and from then on only appended to
